@@ -9,7 +9,8 @@ Cfg0 == [ttl |-> 600, mttl |-> 80, ord |-> TRUE, filt |-> NoFilter, minB |-> 20,
          dlt |-> "", maxAtt |-> 0, push |-> "", labels |-> <<>>]
 C1 == [name |-> "s1", topic |-> "t1", cfg |-> Cfg0]
 mcSubCfgs == {C1}
-mcSetup == << [op |-> "CreateTopic", name |-> "t1"], [op |-> "CreateSub", c |-> C1] >>
+\* (the clock moves before the first publish, so that a seek to time 0 is a rewind to before it)
+mcSetup == << [op |-> "CreateTopic", name |-> "t1"], [op |-> "CreateSub", c |-> C1], [op |-> "Tick", d |-> 1] >>
 mcMsgKinds == { [key |-> "K", attrs |-> <<>>] }
 mcProjOfName == <<>>
 mcWeights == <<>>
